@@ -31,8 +31,8 @@ static inline std::string gen_text(Rng &r, int maxlen)
 }
 static inline std::string gen_ident(Rng &r)
 {
-    static const char *W[] = {"sine", "saw", "An_Identifier_12345", "_x", "frequency_modulation", "t", "f", "n", "i", "M", "B", "true_", "nile", "info", "nowhere", "immediately_", "MIDI_", "BLOBx", "x2", "falsex", "true", "false", "nil", "inf", "now", "immediately", "MIDI", "BLOB"};
-    return W[r.below(r.chance(0.85) ? 20 : 28)];
+    static const char *W[] = {"sine", "saw", "An_Identifier_12345", "_x", "frequency_modulation", "t", "f", "n", "i", "M", "B", "true_", "nile", "info", "nowhere", "immediately_", "MIDI_", "BLOBx", "x2", "falsex", "true1", "nil2", "now3", "false2", "immediately7_x", "inf0", "true", "false", "nil", "inf", "now", "immediately", "MIDI", "BLOB"};
+    return W[r.below(r.chance(0.85) ? 26 : 34)];
 }
 
 // text that looks like pretty-format syntax: inside a string it is just text
